@@ -8,6 +8,8 @@ with the reference's own exact quadrature; the vorticity/divergence -> wind -> v
 round trip (which contains curl grad = 0, div(k x grad) = 0 and div grad = Laplacian) and the inverse
 Laplacian identities are checked on the same basis.  Linearity turns this into a statement about all
 band-limited fields of each enumerated grid.
+
+Extensions after the seeded-breakage rounds (DESIGN.md 8.5): Each half of the vorticity/divergence <-> wind conversion is additionally compared with its definition for two radii in one process (the composition alone cancels a common factor); the grid lattice contains trapezoidal truncations (L >= M+3).
 """
 import numpy as np
 
